@@ -257,7 +257,7 @@ def c05_siblings(tier, rnd):
 
 
 # ------------------------------------------------------------------ C13 / C12
-FEATURES = ["plain", "omit!", "omitx", "repeat", "define", "ns", "content"]
+FEATURES = ["plain", "omit!", "omitx", "repeat", "define", "ns", "tr", "nm", "content"]
 
 
 def _oe_level(al, oe, feat, depth, fb):
@@ -273,6 +273,11 @@ def _oe_level(al, oe, feat, depth, fb):
         kw["define"] = [(False, "x", al.call("define", [S("b"), EXC("KeyError")]))]
     elif feat == "ns":
         tag = "ns"
+    elif feat == "tr":
+        kw["tr"] = ""               # the element's content is a translation block
+    elif feat == "nm":
+        kw["tr"] = ""
+        kw["_named_child"] = True   # (marker, handled by the caller)
     if oe:
         if fb == "const":
             kw["oe"] = (False, const(S("c")))
@@ -282,6 +287,7 @@ def _oe_level(al, oe, feat, depth, fb):
             kw["oe"] = (True, al.call("content", [S("h")]))
         elif fb == "err":
             kw["oe"] = (False, strx(errf("type"), litp(), errf("lineno"), litp(), errf("offset")))
+    kw.pop("_named_child", None)
     return Open(tag=tag, sattr=["class"] if tag == "el" and depth % 2 == 0 else [], **kw)
 
 
